@@ -185,6 +185,14 @@ NotByName(tr, r) ==
     [] tr = "derive_hash" -> r.no_hash
     [] tr = "derive_partialeq" -> r.no_partialeq
 
+(* FunctionSig::function_pointers_can_derive, from the facts of the signature (not from the code's own   *)
+(* answer): Rust implements the traits for function pointers of up to 12 parameters - a variadic tail is    *)
+(* not a parameter - and bindgen derives through them for the C ABI only.  (Graphs built by the models     *)
+(* carry the answer directly and no `abi`.)                                                                  *)
+FnPtrLimit == 12
+FnPtrOk(n) == IF "abi" \in DOMAIN n THEN Len(n.args) <= FnPtrLimit /\ n.abi \in {"C", "unknown"}
+              ELSE n.fnptr_derivable
+
 FnPtr(tr, derivable) ==
   IF tr \in {"derive_copy", "derive_default"} \/ derivable THEN "Yes"
   ELSE IF tr = "derive_debug" THEN "Manually" ELSE "No"
@@ -231,9 +239,9 @@ CDType(G, tr, hv, hd, v, n) ==
        THEN Simple(tr, r.tk)
   ELSE IF r.tk = "Pointer" THEN
     LET c == G.nodes[r.inner].canon IN
-    IF TK(G, c) = "Function" THEN FnPtr(tr, G.nodes[c].fnptr_derivable)
+    IF TK(G, c) = "Function" THEN FnPtr(tr, FnPtrOk(G.nodes[c]))
     ELSE IF tr = "derive_default" THEN "No" ELSE "Yes"
-  ELSE IF r.tk = "Function" THEN FnPtr(tr, r.fnptr_derivable)
+  ELSE IF r.tk = "Function" THEN FnPtr(tr, FnPtrOk(r))
   ELSE IF r.tk = "Array" THEN
     IF v[r.inner] # "Yes" THEN "No"
     ELSE IF r.len = 0 /\ ~CanDeriveIncompleteArray(tr) THEN "No"
